@@ -94,6 +94,64 @@ def run_real_system(case):
         return "err", err_enum(e)
 
 
+def pair_cases(rng, n):
+    """two usage patterns in a zone that changes its clock during the window and in a zone with the same offset at the
+    start that does not: same local start, same number of hours"""
+    from harness.specgen import DST_PAIRS
+    out = []
+    for _ in range(n):
+        za, zb, date = rng.choice(DST_PAIRS)
+        nh = rng.randint(14, 50)
+        hh = rng.randrange(10, 24)
+        out.append({"za": za, "zb": zb, "start": [date[0], date[1], date[2], hh],
+                    "va": [float(rng.randint(0, 90)) for _ in range(nh)], "vb": [float(rng.randint(0, 90)) for _ in range(nh)]})
+    return out
+
+
+def run_pair(case):
+    """C11, last sentence: the job load of two usage patterns in different zones is the instant-by-instant sum of their
+    UTC series (both computed by the real code), and each UTC series is the conversion of its local series"""
+    from efootprint.core.system import System
+    from efootprint.core.usage.usage_pattern import UsagePattern
+    from efootprint.core.usage.usage_journey import UsageJourney
+    from efootprint.core.usage.usage_journey_step import UsageJourneyStep
+    from efootprint.core.usage.job import Job
+    from efootprint.core.hardware.server import Server
+    from efootprint.core.hardware.storage import Storage
+    from efootprint.core.hardware.network import Network
+    from efootprint.core.hardware.device import Device
+    from efootprint.core.country import Country
+    from efootprint.abstract_modeling_classes.source_objects import SourceValue
+    with watchdog(90):
+        sv = Server.from_defaults("sv", storage=Storage.from_defaults("st"))
+        job = Job.from_defaults("job", server=sv)
+        uj = UsageJourney("uj", uj_steps=[UsageJourneyStep("step", user_time_spent=SourceValue(1 * u.min), jobs=[job])])
+        ups = []
+        for tag, zone, vals in (("a", case["za"], case["va"]), ("b", case["zb"], case["vb"])):
+            idx = pd.date_range(start=datetime(*case["start"]), periods=len(vals), freq="h")
+            df = pd.DataFrame({"value": pint_pandas.PintArray(np.array(vals, dtype=float), dtype=u.dimensionless)}, index=idx)
+            co = Country("co" + tag, "C" + tag.upper(), SourceValue(100 * u.g / u.kWh), SourceObject(pytz.timezone(zone)))
+            ups.append(UsagePattern("up" + tag, uj, [Device.from_defaults("dev" + tag)], Network.from_defaults("net" + tag), co,
+                                    ExplainableHourlyQuantities(df, "local starts " + tag)))
+        System("sys", usage_patterns=ups)
+        utc = [canon(p.utc_hourly_usage_journey_starts) for p in ups]
+        across = canon(job.hourly_occurrences_across_usage_patterns)
+    expected = {}
+    for c in utc:
+        for k, v in zip(c["ks"], c["vs"]):
+            expected[k] = expected.get(k, 0.0) + v
+    got = dict(zip(across["ks"], across["vs"]))
+    bad = [k for k in sorted(set(expected) | set(got)) if abs(expected.get(k, 0.0) - got.get(k, 0.0)) > 1e-9 * max(1.0, abs(expected.get(k, 0.0)))]
+    # each UTC series against plain pytz arithmetic
+    verdicts = []
+    for zone, vals, c in ((case["za"], case["va"], utc[0]), (case["zb"], case["vb"], utc[1])):
+        single = {"zone": zone, "start": calendar.timegm(tuple(case["start"]) + (0, 0)), "vs": vals}
+        v = oracle(single, "ok", c)
+        if v:
+            verdicts.append(f"{zone}: {v}")
+    return bad, verdicts, len(across["ks"])
+
+
 def lean_request(case):
     lo, hi = case["start"], case["start"] + 3600 * len(case["vs"])
     return {"cmd": "tz", "zone": leanio.zone_json(case["zone"], lo - 86400 * 3, hi + 86400 * 3),
@@ -151,6 +209,21 @@ def run_shard(args):
                 verdict = oracle(c, st2, r2) if st2 == "ok" else None
                 if verdict:
                     out["violations"].append({"signature": "C11:usage-pattern:" + verdict, "detail": f"{c['zone']} start {c['start']}: {verdict}", "replay": {"case": c}})
+    out["pairs"] = 0
+    prng = __import__("random").Random(seed * 7 + 3)
+    for pc in pair_cases(prng, max(1, len(cases) // 12)):
+        try:
+            bad, verdicts, nk = run_pair(pc)
+        except Exception as e:  # noqa
+            out["violations"].append({"signature": f"C11:two-zone-system-raises:{err_enum(e)}", "detail": f"{pc['za']} + {pc['zb']}: {str(e)[:160]}", "replay": {"pair": pc}})
+            continue
+        out["pairs"] += 1
+        if bad:
+            out["violations"].append({"signature": "C11:usage-patterns-not-combined-instant-by-instant",
+                                      "detail": f"{pc['za']} + {pc['zb']} from {pc['start']}: the job load differs from the sum of the two UTC series at {len(bad)} hour(s), first {bad[0]}",
+                                      "replay": {"pair": pc}})
+        for v in verdicts:
+            out["violations"].append({"signature": "C11:usage-pattern:" + v.split(": ", 1)[1], "detail": v, "replay": {"pair": pc}})
     for c, (st, r), ans in zip(cases, reals, answers):
         out["zones"].add(c["zone"])
         if st == "ok" and len(r["ks"]) < len(c["vs"]):
